@@ -208,7 +208,9 @@ fn fuzz(out: &mut Out, seed: u64, n: u64, w: &World) {
 
 fn main() {
     let a = vcommon::Args::parse();
-    vcommon::quiet_panics();
+    if std::env::var("VERIF_LOUD").is_err() {
+        vcommon::quiet_panics();
+    }
     let w = World {
         ed: Keypair::generate_ed25519().public().to_peer_id(), // identity multihash: 52 base58 characters
         sha: Keypair::generate_ecdsa().public().to_peer_id(),  // SHA2-256 multihash: 46 base58 characters
@@ -218,6 +220,20 @@ fn main() {
         "response" => {
             let mut out = Out::create(a.get(1));
             for s in vcommon::read_ndjson(a.get(0)) {
+                if s.get("kind").and_then(|k| k.as_str()) == Some("fuzz") {
+                    // replay of a fuzz record: parse the recorded panicking inputs again
+                    let mut panics = vec![];
+                    let inputs = s["panics"].as_array().cloned().unwrap_or_default();
+                    for h in &inputs {
+                        let h = h.as_str().unwrap();
+                        let bytes: Vec<u8> = (0..h.len() / 2).map(|i| u8::from_str_radix(&h[2 * i..2 * i + 2], 16).unwrap()).collect();
+                        if vcommon::guard(|| verif::parse(&bytes, from_addr())).is_err() {
+                            panics.push(h.to_string());
+                        }
+                    }
+                    out.ev(json!({"kind": "fuzz", "class": s["class"], "inputs": inputs.len(), "panics": panics}));
+                    continue;
+                }
                 let s = if s.get("sched").is_some() { s["sched"].clone() } else { s };
                 run_response(&mut out, &s, &w);
             }
@@ -245,6 +261,16 @@ fn main() {
             }
             println!("records={}", out.events);
             out.finish();
+        }
+        // replay one packet given as hex
+        "parsehex" => {
+            let h = std::fs::read_to_string(a.get(0)).unwrap();
+            let h = h.trim();
+            let bytes: Vec<u8> = (0..h.len() / 2).map(|i| u8::from_str_radix(&h[2 * i..2 * i + 2], 16).unwrap()).collect();
+            match vcommon::guard(|| format!("{:?}", verif::parse(&bytes, from_addr()))) {
+                Ok(r) => println!("parsed: {}", &r[..r.len().min(200)]),
+                Err(m) => println!("PANIC: {m}"),
+            }
         }
         "fuzz" => {
             let mut out = Out::create(a.get(2));
